@@ -42,7 +42,7 @@ const BASE_ASSUME: [&str; 3] = [
 
 pub fn plan(prop: &str) -> Option<Plan> {
     let conc = |q: u64, t: u64| -> Vec<Part> {
-        vec![p("K1", q, t), p("K2", q, t), p("K3", q, t), p("K4", q, t), p("K5", q, t), p("K6", q, t)]
+        vec![p("K1", q, t), p("K2", q, t), p("K3", q, t), p("K4", q, t), p("K5", q, t), p("K6", q, t), p("K7", q, t)]
     };
     let mut assumptions: Vec<&'static str> = BASE_ASSUME.to_vec();
     let (level, parts, rule): (&str, Vec<Part>, &str) = match prop {
@@ -77,7 +77,7 @@ pub fn plan(prop: &str) -> Option<Plan> {
         "C09" => ("exploration", vec![p("Q1open", 40_000, 2_000_000)], SEQ_RULE),
         "C10" => {
             let mut v = vec![p("Q9", 25_000, 1_000_000)];
-            v.extend([p("K3", 3000, 200_000), p("K4", 3000, 200_000), p("K5", 3000, 200_000)]);
+            v.extend([p("K3", 3000, 200_000), p("K4", 3000, 200_000), p("K5", 3000, 200_000), p("K7", 3000, 200_000)]);
             ("exploration", v, SEQ_RULE)
         }
         "C11" => ("exploration", vec![p("Q3", 3000, 150_000)], SEQ_RULE),
@@ -518,7 +518,7 @@ pub fn check(prop: &str, tier: &str) -> i32 {
             .set("verif_seed", seed)
             .set("case", case.to_json());
         std::fs::write(&file, rec.to_pretty()).unwrap();
-        if is_mem || matches!(prop, "C03" | "C09") {
+        if is_mem || matches!(prop, "C03" | "C09" | "C21") {
             if let Some(k) = known.matches(prop, "killed-by-signal") {
                 known_hit.insert(format!("KNOWN-FINDING: property={prop} {}", k.gs("what")));
             } else if confirm_in_fresh_process(&file) {
